@@ -56,6 +56,9 @@ void __real_srand(unsigned); void __wrap_srand(unsigned s) { sched_point(K_SRAND
 time_t __wrap_time(time_t *t) { sched_point(K_TIME); if (t) *t = 1700000000; return 1700000000; }
 struct tm *__real_localtime(const time_t *); struct tm *__wrap_localtime(const time_t *t) { sched_point(K_LOCALTIME); return __real_localtime(t); }
 
+/* the working directory is process-wide state too */
+int __real_chdir(const char *); int __wrap_chdir(const char *p) { sched_point(256); int r = __real_chdir(p); sched_point(256); return r; }
+char *__real_getcwd(char *, size_t); char *__wrap_getcwd(char *b, size_t n) { sched_point(256); return __real_getcwd(b, n); }
 typedef struct { const char *name, *src; unsigned long ext; int fmt; int random; } job;
 #define XD (EXT_SMART | EXT_NOTES | EXT_CRITIC)
 static const job JOBS[] = {
@@ -66,6 +69,9 @@ static const job JOBS[] = {
 	{ "random-foot", "a[^x] b[^y]\n\n[^x]: one\n\n[^y]: two\n", XD | EXT_RANDOM_FOOT, FORMAT_HTML, 1 },
 	{ "random-foot2", "c[^p]\n\n[^p]: note\n", XD | EXT_RANDOM_FOOT, FORMAT_HTML, 1 },
 	{ "epub", "Title: E\n\n# H\n\ntext\n", XD, FORMAT_EPUB, 0 },
+	{ "epub-dir-a", "Title: EA\n\n# H\n\n![i](i.png) ![p](photo.jpeg) text\n", XD, FORMAT_EPUB, 0 },
+	{ "epub-dir-b", "Title: EB\n\n![d](deep.gif) other\n", XD, FORMAT_EPUB, 0 },
+	{ "odt-dir-a", "Title: OA\n\n![i](i.png) text\n", XD, FORMAT_ODT, 0 },
 	{ "tiny-a", "# Head A\n\n[x] *t*\n\n[x]: http://u/\n", XD, FORMAT_HTML, 0 },
 	{ "tiny-b", "Other B\n=======\n\n| a |\n|---|\n| b |\n[Cap]\n\nc[^n]\n\n[^n]: n\n", XD, FORMAT_LATEX, 0 },
 	{ "tiny-c", "## C [lab]\n\nterm\n: def \"q\"\n", XD, FORMAT_FODT, 0 },
@@ -92,7 +98,12 @@ static uint64_t outhash[MAXT][2]; static int anchors_ok[MAXT][2];
 static uint64_t fnv(const void *p, size_t n) { const unsigned char *s = p; uint64_t h = 1469598103934665603ULL; while (n--) { h ^= *s++; h *= 1099511628211ULL; } return h; }
 /* hash with uuids normalised; ZIP results are hashed by length only */
 static uint64_t out_hash(const job *j, DString *d) {
-	if (j->fmt == FORMAT_EPUB) { size_t n = d->currentStringLength; return fnv(&n, sizeof n); }
+	if (j->fmt == FORMAT_EPUB || j->fmt == FORMAT_ODT) {
+		/* archives: member count and the uncompressed size of every member (from the central directory); names and compressed bytes contain uuids */
+		uint64_t h = 1469598103934665603ULL; size_t n = d->currentStringLength; unsigned cnt = 0;
+		for (size_t i = 0; i + 46 <= n; i++) if (!memcmp(d->str + i, "PK\x01\x02", 4)) { uint32_t us; memcpy(&us, d->str + i + 24, 4); h = (h ^ us) * 1099511628211ULL; cnt++; }
+		return h ^ cnt;
+	}
 	return fnv(d->str, d->currentStringLength);
 }
 static int anchors_consistent(const char *h) {
@@ -106,7 +117,9 @@ static void run_job(int t, int k) {
 	DString *pre = NULL; const char *src = j->src; uint64_t extra = 0;
 	if (j->ext & (EXT_CRITIC_ACCEPT | EXT_CRITIC_REJECT)) { pre = d_string_new(j->src); if (j->ext & EXT_CRITIC_ACCEPT) mmd_critic_markup_accept(pre); else mmd_critic_markup_reject(pre); src = pre->str; extra = fnv(pre->str, pre->currentStringLength); }
 	if (!strcmp(j->name, "meta")) { char *v = mmd_string_metavalue_for_key(j->src, "title"); char *ks = mmd_string_metadata_keys(j->src); if (v) { extra ^= fnv(v, strlen(v)); free(v); } if (ks) { extra ^= fnv(ks, strlen(ks)) * 3; free(ks); } }
-	DString *d = mmd_string_convert_to_data(src, j->ext, j->fmt, 0, NULL);
+	char dirbuf[600]; const char *dir = NULL, *vd = getenv("VERIF_DIR");
+	if (strstr(j->name, "-dir-")) { snprintf(dirbuf, sizeof dirbuf, "%s/fixtures/assets%s", vd ? vd : "/verif", strstr(j->name, "-dir-b") ? "/sub" : ""); dir = dirbuf; }
+	DString *d = mmd_string_convert_to_data(src, j->ext, j->fmt, 0, dir);
 	outhash[t][k] = d ? out_hash(j, d) ^ (extra * 0x9E3779B97F4A7C15ULL) : 0;
 	if (pre) d_string_free(pre, true);
 	anchors_ok[t][k] = (j->random && d) ? anchors_consistent(d->str) : 1;
@@ -147,7 +160,7 @@ static const char *mixname;
 static void report(const result *r, int t, int k, const char *what) {
 	const job *j = &JOBS[tjobs[t][k]]; int pc = 0;
 	for (int i = 0; i < r->n; i++) if (r->ch[i] > 0 && r->run[i] >= 0 && (r->mask[i] >> r->run[i] & 1)) pc++;
-	const char *cause = (r->kinds[t] & (K_RANNEXT)) ? "knuth-generator" : (r->kinds[t] & (K_RAND | K_SRAND)) ? "libc-rand" : "other-shared-state";
+	const char *cause = (r->kinds[t] & 256) ? "working-directory" : (r->kinds[t] & (K_RANNEXT)) ? "knuth-generator" : (r->kinds[t] & (K_RAND | K_SRAND)) ? "libc-rand" : "other-shared-state";
 	printf("{\"t\":\"viol\",\"sig\":\"sched:%s:%s\",\"detail\":\"thread %d job %s: %s in a schedule with %d preemption(s)\",\"mix\":\"%s\",\"preemptions\":%d,\"points\":%d,\"schedule\":[", what, cause, t, j->name, what, pc, mixname, pc, r->n);
 	{ int first = 1; for (int i = 0; i < r->n; i++) if (r->ch[i]) { printf("%s[%d,%d]", first ? "" : ",", i, r->ch[i]); first = 0; } }
 	printf("]}\n");
